@@ -37,6 +37,7 @@ type KnownFinding struct {
 	ReplayPkg  string `json:"replay_pkg,omitempty"`  // package directory of the replay test
 	ReplayFile string `json:"replay_file,omitempty"` // test file under /verif (injected with go test -overlay)
 	ReplayTest string `json:"replay_test,omitempty"` // test function: asserts the property, so FAIL = defect reproduced
+	ReplayExtra []string `json:"replay_extra_files,omitempty"`
 }
 
 type FixedFinding struct {
@@ -312,7 +313,7 @@ func cmdCheck(args []string) {
 			if k.ReplayTest == "" {
 				continue
 			}
-			rep, out := runReplayTest(*repo, *verif, k.ReplayPkg, k.ReplayFile, k.ReplayTest)
+			rep, out := runReplayTest(*repo, *verif, k.ReplayPkg, k.ReplayFile, k.ReplayTest, k.ReplayExtra...)
 			kfReplays = append(kfReplays, map[string]any{"obligation": s.Name, "test": k.ReplayFile + ":" + k.ReplayTest, "reproduced_on_real_code": rep, "output_tail": tailStr(out, 600)})
 			if !rep {
 				fmt.Printf("NOTE: known finding %s did not reproduce in its replay test (the obligation still fails)\n", s.Name)
@@ -553,6 +554,13 @@ var globalAssumptions = []string{
 }
 
 var propAssumptions = map[string][]string{
+	"C15": {
+		"scope: lookupTypeName, lookupPIDs, streamWriter.Invoke, ProtoSerializer.TypeName/Serialize; the inbound half (streamReader.Receive) is C16; the round trip is their composition up to LookupKey equality",
+		"hk (xxh3.Hash) is collision-free on distinct byte strings; PID.LookupKey() == hk(Address ++ ID) (trusted contract)",
+		"abstract contracts: Serializer.TypeName (pure, names tnameof), Serializer.Serialize (names ser), DRPCRemote_ReceiveStream.Send (one StreamSend entry)",
+		"every envelope of the batch carries a non-nil *streamDeliver with a non-nil target (streamRouter.deliverStream is the only producer)",
+		"table sizes fit int32 (batches hold at most 4096 messages)",
+	},
 	"C18": {
 		"scope: NewMemberSet, MemberSet.Except/Slice, Agent.handleMembers/memberJoin/memberLeave/rebuildKinds (with MemberSet.ForEach and its closure inlined)/removeActivated, Agent.Receive restricted to *Members and getMembers; Cluster.Members/HasKind (request/response) and the other agent cases are outside this check",
 		"thread confinement of the agent's handlers (C02); Member and PID objects are immutable",
